@@ -293,6 +293,8 @@ static int setup_dwarf_info(const char *filename, struct uftrace_dbg_info *dinfo
 		pr_dbg2("cannot open debug info for %s: %m\n", filename);
 		return -1;
 	}
+	/* it stays open as long as the debug info is used: keep it out of the traced program's way */
+	fd = fd_move_high(fd);
 
 	dinfo->dw = dwarf_begin(fd, DWARF_C_READ);
 	if (dinfo->dw != NULL)
